@@ -3,6 +3,8 @@ use std::collections::HashMap;
 
 use pocketscion::network::scion::segment::registry::SegmentRegistry;
 use sciparse::{
+    segment::list_segment_plan::{CoreHint, Dst, ListSegmentPlan, Src},
+    identifier::asn::Asn,
     core::view::View,
     dataplane_path::{standard::model::StandardPath, view::ScionDpPathView, view::ScionDpPathViewRef},
     identifier::isd_asn::IsdAsn,
@@ -12,7 +14,7 @@ use sciparse::{
 use serde_json::{Value, json};
 
 use super::{
-    model::{Attack, Inst, RefPath, RefPiece, RefStep},
+    model::{Attack, Inst, PlanRow, PlanTableRow, RefPath, RefPiece, RefStep},
     monitors::{Findings, TruthMtu, c04_list},
     world::{self, Offered, RealSeg, SimOut, World, build_segment, chain_facts, concretize, describe, path_class, simulate},
 };
@@ -534,6 +536,17 @@ pub fn replay_instance(inst: &Inst, parts: &Parts, rng: &mut vh_core::Rng) -> Va
         }
     }
 
+    // ---------------- segment request plan (C01: "whenever the segments can be joined, a path is offered")
+    if parts.c01 {
+        for row in &inst.plantable {
+            plan_table_row(&mut f, row);
+        }
+        let by_key: HashMap<Vec<(IsdAsn, u16, u16)>, u32> = regsegs.values().map(|rs| (seg_key(&rs.seg), rs.id)).collect();
+        for row in &inst.plans {
+            plan_instance_row(&mut f, &w, &reg, &by_key, valid_after, inst, row);
+        }
+    }
+
     // ---------------- attack packets (C13)
     if parts.c13 {
         for (n, a) in inst.attacks.iter().enumerate() {
@@ -601,7 +614,7 @@ fn c13_attack(f: &mut Findings, w: &mut World, segs: &HashMap<u32, RealSeg>, ins
         }
     };
     let bound = nh + 1;
-    let out: SimOut = simulate(w, &mut pkt, a.now, a.at, a.ifin, bound + 3);
+    let out: SimOut = if a.sched.is_empty() { simulate(w, &mut pkt, a.now, a.at, a.ifin, bound + 3) } else { world::simulate_sched(w, &mut pkt, a.now, a.at, a.ifin, &a.sched, bound + 3) };
     if let Some(p) = &out.panic {
         f.pv("C13", format!("panic:{}", a.fam), format!("simulator panicked: {p}"), ctx(out.trace_json()));
         return;
@@ -618,11 +631,12 @@ fn c13_attack(f: &mut Findings, w: &mut World, segs: &HashMap<u32, RealSeg>, ins
         f.pv("C13", format!("delivered-elsewhere:{}", a.fam), format!("delivered locally in AS {} but the destination is AS {}", last.asn, a.dst), ctx(out.trace_json()));
     }
     // (3) forwarding only over existing, up links
-    for s in &out.steps {
+    for (n, s) in out.steps.iter().enumerate() {
         if s.k == "fwd" {
+            let down_now: &Vec<usize> = if a.sched.is_empty() { &a.down } else { &a.sched[n.min(a.sched.len() - 1)] };
             match w.ifmap.get(&(s.asn, s.egress)) {
                 None => f.pv("C13", format!("forward-nonexistent-link:{}", a.fam), format!("AS {} forwards over interface {} which does not exist", s.asn, s.egress), ctx(out.trace_json())),
-                Some((l, _, _)) if a.down.contains(&(l + 1)) => {
+                Some((l, _, _)) if down_now.contains(&(l + 1)) => {
                     f.pv("C13", format!("forward-down-link:{}", a.fam), format!("AS {} forwards over interface {} whose link is down", s.asn, s.egress), ctx(out.trace_json()))
                 }
                 _ => {}
@@ -664,4 +678,115 @@ fn c13_attack(f: &mut Findings, w: &mut World, segs: &HashMap<u32, RealSeg>, ins
         }
     }
     f.count(&format!("c13:ref:{}", if ref_deliver { "deliver".to_string() } else { format!("reject-{}", v.class) }), 1);
+}
+
+
+fn ia(isd: u16, asn: u64) -> IsdAsn {
+    IsdAsn::new(sciparse::identifier::isd::Isd::new(isd), Asn::new(asn))
+}
+
+/// I-spec binding of the decision table: ListSegmentPlan::new on a concretisation of the abstract cell.
+fn plan_table_row(f: &mut Findings, row: &PlanTableRow) {
+    f.count("plan:table_cells", 1);
+    let c = &row.cell;
+    let disd: u16 = if c.same { 1 } else { 2 };
+    let single = ia(1, 1);
+    let src = if c.src_core { ia(1, 1) } else { ia(1, 11) };
+    let dst = match c.dst_kind.as_str() {
+        "any" => ia(disd, 0),
+        "core" => {
+            if c.same && c.single && !c.src_core {
+                single
+            } else {
+                ia(disd, 2)
+            }
+        }
+        _ => ia(disd, 12),
+    };
+    let term = |t: &str| -> IsdAsn {
+        match t {
+            "src" => src,
+            "dst" => dst,
+            "srcW" => ia(1, 0),
+            "dstW" => ia(disd, 0),
+            _ => single,
+        }
+    };
+    let want = |l: &Vec<String>| -> Option<(IsdAsn, IsdAsn)> { if l.len() == 2 { Some((term(&l[0]), term(&l[1]))) } else { None } };
+    let hint = if c.single { CoreHint::Single(single) } else { CoreHint::Multiple };
+    let real = vh_core::catch(|| Src::new(src, c.src_core).map_err(|e| format!("{e}")).and_then(|s| ListSegmentPlan::new(s, hint, Dst::new(dst, c.dst_kind == "core")).map_err(|e| format!("{e}"))));
+    let ctx = json!({"cell": row.cell, "spec": row.plan, "src": src.to_string(), "dst": dst.to_string()});
+    match real {
+        Err(p) => f.pv("C01", "panic:list_segment_plan".into(), format!("ListSegmentPlan::new panicked: {p}"), ctx),
+        Ok(Err(e)) => {
+            if !row.err {
+                f.drift("C01", format!("request plan: spec has lookups, ListSegmentPlan::new fails: {e}"), ctx);
+            }
+        }
+        Ok(Ok(p)) => {
+            if row.err || p.up != want(&row.plan.up) || p.core != want(&row.plan.core) || p.down != want(&row.plan.down) {
+                f.drift("C01", format!("request plan differs from the decision table: real up {:?} core {:?} down {:?}", p.up, p.core, p.down), ctx);
+            } else {
+                f.count("plan:table_equal", 1);
+            }
+        }
+    }
+}
+
+/// The control plane's answer for (src, dst) on a real topology against the spec's Fetched set (I-spec), and for a
+/// wildcard destination the P-monitor: some core AS of the ISD is reachable over the listed segments.
+fn plan_instance_row(
+    f: &mut Findings,
+    w: &World,
+    reg: &SegmentRegistry,
+    by_key: &HashMap<Vec<(IsdAsn, u16, u16)>, u32>,
+    valid_after: chrono::DateTime<chrono::Utc>,
+    inst: &Inst,
+    row: &PlanRow,
+) {
+    f.count("plan:lookups", 1);
+    let sia = w.ia[row.src as usize];
+    let wildcard = row.dst.1 == 0;
+    let dia = if wildcard { ia(row.dst.0, 0) } else { w.ia[row.dst.1 as usize] };
+    let ctx = json!({"topo": inst.name, "src": row.src, "dst": row.dst, "cell": row.cell, "plan": row.plan});
+    let listed = vh_core::catch(|| reg.endhost_list_segments(sia, sia, dia).and_then(|l| l.into_path_segments(&w.topo, valid_after, 0, 255)));
+    let listed = match listed {
+        Err(p) => {
+            f.pv("C01", "panic:list_segments".into(), format!("endhost_list_segments({},{}) panicked: {p}", row.src, dia), ctx);
+            return;
+        }
+        Ok(Err(e)) => {
+            if !row.err {
+                if wildcard && row.reach {
+                    f.pv("C01", "none-offered-when-joinable:anycore".into(), format!("a core AS of ISD {} is reachable from AS {} but the segment lookup fails: {e:#}", row.dst.0, row.src), ctx);
+                } else {
+                    f.drift("C01", format!("segment listing fails where the plan has lookups: {e:#}"), ctx);
+                }
+            }
+            return;
+        }
+        Ok(Ok(l)) => l,
+    };
+    let cores: Vec<UnsignedPathSegment> = listed.iter_cores().map(|s| s.clone().into_unsigned_segment()).collect();
+    let ncs: Vec<UnsignedPathSegment> = listed.iter_non_cores().map(|s| s.clone().into_unsigned_segment()).collect();
+    let ids = |v: &Vec<UnsignedPathSegment>| -> Vec<u32> {
+        let mut x: Vec<u32> = v.iter().map(|s| by_key.get(&seg_key(s)).copied().unwrap_or(0)).collect();
+        x.sort();
+        x.dedup();
+        x
+    };
+    let (rc, rn) = (ids(&cores), ids(&ncs));
+    if rc != row.fetched.cores || rn != row.fetched.ncs {
+        f.drift("C01", format!("listed segments differ from the plan's lookups: cores {rc:?} vs {:?}, non-cores {rn:?} vs {:?}", row.fetched.cores, row.fetched.ncs), ctx.clone());
+    } else {
+        f.count("plan:listing_equal", 1);
+    }
+    if wildcard && row.reach {
+        f.count("plan:anycore_checked", 1);
+        let targets: Vec<IsdAsn> = inst.topo.ases.iter().filter(|a| a.core && a.isd == row.dst.0 && a.id != row.src).map(|a| w.ia[a.id as usize]).collect();
+        let reached = targets.iter().any(|d| vh_core::catch(|| combine(sia, *d, cores.clone(), ncs.clone())).map(|p| !p.is_empty()).unwrap_or(false));
+        if !reached {
+            f.pv("C01", "none-offered-when-joinable:anycore".into(), format!("a core AS of ISD {} is reachable from AS {} but the segments listed for the wildcard destination yield no path", row.dst.0, row.src), ctx);
+        }
+    }
 }
